@@ -4,6 +4,8 @@ import KdVerif.Proofs.ClassCommute
 import KdVerif.Proofs.TraceNoExc
 import KdVerif.Gen.Decoders
 import KdVerif.Gen.Host
+import KdVerif.Proofs.PyIRFlTraces
+import KdVerif.Gen.PyIRFl
 /-
   C13 — trace filters commute with decoding and leave no residue in the parser.
 
@@ -534,5 +536,98 @@ example :
           (fun p => p.1.viewC) :=
   traces_commute_class exEnv exEnv_benign cfg4 rfl rfl (by decide) (by intro sc h; cases h) exEnv_closed
     exEnv_classOnly exDump _ _ rfl rfl (by decide +kernel) (by decide +kernel)
+
+/-! ### translation tie: the SOURCE TEXT of `traces()` / `_filter_process_callback` (and of `kevents` /
+    `_is_eventid_allowed`, which `traces()` feeds the `TracesParser` from), translated by `tools/gen_pyir_fl.py` into the
+    IR of `Model/PyIRFl` and run by its interpreter, IS what `TracePipeline.traces` is assembled from -/
+
+/-- What the post-filter stages read of a yielded trace: `trace.ktraces[0]` and the two shared tables as they are when
+    the trace is yielded. -/
+def irView (p : TraceOut × Tabs) : Kevent × PyIRFl.Tables := (firstOf p.1.events, ⟨p.2.threadsPids, p.2.pidsNames⟩)
+
+/-- **source_is_expected_ir.**  The IR that the translator produces from the working tree's `pykdebugparser.py`
+    (`Gen/PyIRFl.lean`, regenerated on every run) for `traces`, `_filter_process_callback`, `kevents` and
+    `_is_eventid_allowed` is, term for term, the hand-written `Spec/PyIRFlExpected` the refinement proofs were done for,
+    and the translator met nothing outside the method bodies that it could not express. -/
+theorem source_is_expected_ir :
+    Gen.PyIRFl.traces = PyIRFl.Expected.traces ∧
+    Gen.PyIRFl.filterProcessCallback = PyIRFl.Expected.filterProcessCallback ∧
+    Gen.PyIRFl.kevents = PyIRFl.Expected.kevents ∧
+    Gen.PyIRFl.isEventidAllowed = PyIRFl.Expected.isEventidAllowed ∧
+    Gen.PyIRFl.notes = [] := by decide
+
+/-- **traces_ir_eq_model.**  `self.traces(kdebug, trace_codes)` of the source, interpreted for EVERY configuration
+    (and with or without a caller-supplied code table): the method returns the stream of a fresh `TracesParser` — on
+    the caller's code table, else `default_trace_codes()`, and on the parser's two shared tables — fed by
+    `self.kevents(kdebug, <list object>)`, where the list object holds `TracePipeline.effectiveClasses cfg` (the COPY of
+    `filter_class` with the helper classes appended) when the request is consumed; the parser's filter attributes are
+    left as they were (`cfgAfter = cfg`: the helper classes went to the copy); and the stacked post-filter stages,
+    evaluated on ANY list of yielded traces (each with the tables at its yield), keep exactly
+    `TracePipeline.postFilter cfg` of it, in that order, without an exception. -/
+theorem traces_ir_eq_model (cfg : Cfg) (codesGiven : Bool) (l : List (TraceOut × Tabs)) :
+    PyIRFl.runTraces irView Gen.PyIRFl.prog cfg codesGiven l
+      = .ok { codesGiven := codesGiven, classArg := some (effectiveClasses cfg), cfgAfter := cfg,
+              out := postFilter cfg l } :=
+  PyIRFl.runTraces_expected irView _ source_is_expected_ir.1 source_is_expected_ir.2.1 cfg codesGiven l
+
+/-- **filter_process_callback_ir_eq_model.**  `self._filter_process_callback(trace)` of the source, interpreted on
+    every configuration, every pair of tables and every trace: the bool `TracePipeline.processMatches` computes (and
+    `False` when no process filter is set: `None` equals no text). -/
+theorem filter_process_callback_ir_eq_model (cfg : Cfg) (T : Tabs) (o : TraceOut) :
+    PyIRFl.runFilterProcessCallback Gen.PyIRFl.prog cfg ⟨T.threadsPids, T.pidsNames⟩ (firstOf o.events)
+      = .ok (.bool (match cfg.filterProcess with
+                    | some fp => processMatches fp T o
+                    | none => false)) :=
+  PyIRFl.runFilterProcessCallback_expected _ source_is_expected_ir.2.1 cfg _ _
+
+/-- **traces_request_rests_on_ir.**  The two halves of the hand model of a `traces()` request are the interpreted
+    source: (1) the events the `TracesParser` is fed (`fedEvents`) are what the GENERATED `kevents`, handed the class
+    list the GENERATED `traces` hands it, lists of the dump's records; (2) what the request delivers
+    (`(traces env obj d).1.traces`) is what the GENERATED `traces` sets up and its post-filter stages keep of the
+    traces the `TracesParser` model yields for those events.  So every theorem of this file about `TracePipeline.traces`
+    is a statement about the translated source, up to the hand models of the container parser and of `TracesParser`. -/
+theorem traces_request_rests_on_ir (env : Env) (obj : Obj) (d : Dump) (codesGiven : Bool) :
+    PyIRFl.runKevents Gen.PyIRFl.prog obj.cfg (some (effectiveClasses obj.cfg)) (d.events.map Item.event)
+        = .ok ((fedEvents obj.cfg d).map Item.event) ∧
+    PyIRFl.runTraces irView Gen.PyIRFl.prog obj.cfg codesGiven
+        (runAnnot env (startState d) (fedEvents obj.cfg d))
+        = .ok { codesGiven := codesGiven, classArg := some (effectiveClasses obj.cfg), cfgAfter := obj.cfg,
+                out := (traces env obj d).1.traces } :=
+  ⟨PyIRFl.runKevents_expected _ source_is_expected_ir.2.2.1 source_is_expected_ir.2.2.2.1 obj.cfg _ _,
+   traces_ir_eq_model obj.cfg codesGiven _⟩
+
+private instance exceptDecEq {ε α : Type} [DecidableEq ε] [DecidableEq α] : DecidableEq (Except ε α)
+  | .ok a, .ok b => if h : a = b then isTrue (by rw [h]) else isFalse (by intro e; cases e; exact h rfl)
+  | .error a, .error b => if h : a = b then isTrue (by rw [h]) else isFalse (by intro e; cases e; exact h rfl)
+  | .ok _, .error _ => isFalse (by intro e; cases e)
+  | .error _, .ok _ => isFalse (by intro e; cases e)
+
+private def irEv (ts tid eid : Nat) : Kevent :=
+  { timestamp := ts, data := [], values := [], tid := tid, debugid := eid, eventid := eid, qual := 0 }
+
+/-- non-vacuity: the GENERATED `traces` run by the interpreter under `filter_class = [4]` + a process filter, on four
+    yielded traces (BSD of the process, a kernel-trace record, BSD of another thread, a lookup): helper classes 7 and 3
+    go to the copy handed to `kevents`, the parser keeps `[4]`, the stages keep the first trace only. -/
+example :
+    (PyIRFl.runTraces (fun k : Kevent => (k, ({ threadsPids := [(7, 42)], pidsNames := [(42, "launchd")] } : PyIRFl.Tables)))
+        Gen.PyIRFl.prog { filterClass := [4], filterProcess := some "launchd" } false
+        [irEv 1 7 0x040c0004, irEv 2 7 0x07000000, irEv 3 8 0x040c0004, irEv 4 7 0x03010000]).map
+      (fun r => (r.codesGiven, r.classArg, r.cfgAfter.filterClass, r.out.map (·.timestamp)))
+    = .ok (false, some [4, 7, 3], [4], [1]) := by decide
+
+/-- … a subclass-only request: `[7, 3]` is handed to `kevents`, the parser's own list stays empty. -/
+example :
+    (PyIRFl.runTraces (fun k : Kevent => (k, ({} : PyIRFl.Tables))) Gen.PyIRFl.prog { filterSubclass := [0x040c] } true
+        [irEv 1 7 0x040c0004, irEv 2 7 0x07000000, irEv 4 7 0x03010000]).map
+      (fun r => (r.codesGiven, r.classArg, r.cfgAfter.filterClass, r.out.map (·.timestamp)))
+    = .ok (true, some [7, 3], [], [1]) := by decide
+
+/-- … and the GENERATED `_filter_process_callback`: pid text, name, an undeclared thread (`-1`). -/
+example : PyIRFl.runFilterProcessCallback Gen.PyIRFl.prog { filterProcess := some "42" }
+    { threadsPids := [(7, 42)], pidsNames := [(42, "launchd")] } (irEv 1 7 0) = .ok (.bool true) := by decide
+example : PyIRFl.runFilterProcessCallback Gen.PyIRFl.prog { filterProcess := some "-1" } {} (irEv 1 7 0)
+    = .ok (.bool true) := by decide
+example : PyIRFl.runFilterProcessCallback Gen.PyIRFl.prog { filterProcess := some "launchd" }
+    { threadsPids := [(7, 43)], pidsNames := [(42, "launchd")] } (irEv 1 7 0) = .ok (.bool false) := by decide
 
 end KdVerif.C13
